@@ -50,12 +50,57 @@ def stability (o : Inst) : Bool :=
 def futures (o : Inst) : Bool :=
   o.futs.all fun f => o.decisions.contains f.2 && o.decisions.all (· == f.2)
 
+/-- `propose()` on a node that already reports a decision: `(reported before the call, what the returned
+    future is resolved with when the call returns)` — the future is resolved at once, with that decision -/
+def proposeCallOk (c : Option Nat × Option Nat) : Bool :=
+  match c.1 with
+  | some d => c.2 == some d
+  | none => true
+
+def judgeCalls (pfx : String) (calls : List (Option Nat × Option Nat)) : Option String :=
+  if !calls.all proposeCallOk then some (pfx ++ "/future/unresolved-on-decided-node") else none
+
 /-- first violated clause, as a signature -/
 def judgeInst (pfx : String) (o : Inst) : Option String :=
   if !stability o then some (pfx ++ "/stability/decision-changed")
   else if !agreement o then some (pfx ++ "/agreement/two-values")
   else if !validity o then some (pfx ++ "/validity/unproposed-value")
   else if !futures o then some (pfx ++ "/future/resolved-with-other-value")
+  else none
+
+/-! ## Phase 1 reports (single-decree Paxos): a promise names the acceptor's highest accepted proposal
+
+Observables are the messages seen on the network (C12 `observe_at`):
+* a *vote* `(acceptor, ballot, value)` — the acceptor answered `Accept(ballot, value)` with `Accepted`
+  (lower bound of what it accepted), or it is the owner of `ballot` and sent `Accept(ballot, value)` itself
+  (it may have accepted its own proposal: upper bound);
+* a *promise* `(acceptor, ballot, reported)` — the acceptor answered `Prepare(ballot)` with a `Promise`
+  whose `accepted_ballot` / `accepted_value` fields are `reported` (`none` = "nothing accepted yet").
+
+`promiseCovers`: every vote of the acceptor in a ballot below the promised one is covered by the report
+(the report is not `none` and names a ballot at least as high) — whatever the accepted value is (0, '',
+False, None are values like any other).  `promiseReal`: a reported proposal is one the acceptor voted for,
+in a ballot not above the promised one.  Both are order-free: an acceptor that promised `b` never votes
+below `b` afterwards, so a vote below `b` was cast before the promise. -/
+
+abbrev Vote := Nat × Nat × Nat
+abbrev Prom := Nat × Nat × Option (Nat × Nat)
+
+def promiseCovers (votes : List Vote) (p : Prom) : Bool :=
+  votes.all fun w => !(w.1 == p.1 && decide (w.2.1 < p.2.1)) ||
+    (match p.2.2 with
+     | some (bm, _) => decide (w.2.1 ≤ bm)
+     | none => false)
+
+def promiseReal (votes : List Vote) (p : Prom) : Bool :=
+  match p.2.2 with
+  | none => true
+  | some (bm, vm) => votes.contains (p.1, bm, vm) && decide (bm ≤ p.2.1)
+
+/-- `lo` ⊆ the votes really cast ⊆ `hi` -/
+def judgePromises (pfx : String) (lo hi : List Vote) (proms : List Prom) : Option String :=
+  if !proms.all (promiseCovers lo) then some (pfx ++ "/promise/hides-accepted-value")
+  else if !proms.all (promiseReal hi) then some (pfx ++ "/promise/reports-value-never-accepted")
   else none
 
 /-! ## Replicated log (Multi-Paxos / Flexible Paxos): a leader commits only on a phase-2 quorum
